@@ -72,9 +72,30 @@ theorem beta_arg_in_domain (p v ref : V3) (hw : V3.dot (V3.cross p v) (V3.cross 
   have h := Real.abs_le_sqrt (dot_sq_le (V3.cross p v) ref)
   rwa [Real.sqrt_mul (dot_self_nonneg _)] at h
 
+theorem norm_expand (a : V3) : Real.sqrt (a.x ^ 2 + a.y ^ 2 + a.z ^ 2) = V3.norm a := by
+  simp only [V3.norm, V3.dot, sqrt]; congr 1; ring
+
+/-- **the arithmetic of `beta`, as it is in the source today** (`betaSrc` is translated from beyond/utils/beta.py on every
+run): the arcsine of the clipped quotient `w·ref / (|w||ref|)`, `w = p × v` -/
+theorem betaAngle_eq (p v ref : V3) :
+    betaAngle p v ref
+      = Real.arcsin (clipR (V3.dot (V3.cross p v) ref / (V3.norm (V3.cross p v) * V3.norm ref)) (-1) 1) := by
+  have hw : Real.sqrt ((p.y * v.z - p.z * v.y) ^ 2 + (p.z * v.x - p.x * v.z) ^ 2 + (p.x * v.y - p.y * v.x) ^ 2)
+      = V3.norm (V3.cross p v) := norm_expand (V3.cross p v)
+  have hd : (p.y * v.z - p.z * v.y) * ref.x + (p.z * v.x - p.x * v.z) * ref.y + (p.x * v.y - p.y * v.x) * ref.z
+      = V3.dot (V3.cross p v) ref := rfl
+  unfold betaAngle betaSrc
+  simp only [powi, sqrt, asin, hw, hd, norm_expand]
+
+/-- … and the two vectors it works on are the cartesian state of the orbit and the position of the body at the orbit's
+date in the orbit's frame (the statements of `beta` around the arithmetic, regenerated as text) -/
+theorem beta_environment : betaEnv = ["if isinstance(ref, str):\n    ref = get_body(ref)", "orb = orb.copy(form='cartesian')",
+    "ref_pos = np.asarray(ref.propagate(orb.date).copy(frame=orb.frame)[:3])"] := by decide
+
 /-- **The beta angle lies in [-90°, 90°]** (all inputs) -/
-theorem beta_range (p v ref : V3) : -(pi / 2) ≤ betaAngle p v ref ∧ betaAngle p v ref ≤ pi / 2 :=
-  ⟨Real.neg_pi_div_two_le_arcsin _, Real.arcsin_le_pi_div_two _⟩
+theorem beta_range (p v ref : V3) : -(pi / 2) ≤ betaAngle p v ref ∧ betaAngle p v ref ≤ pi / 2 := by
+  rw [betaAngle_eq]
+  exact ⟨Real.neg_pi_div_two_le_arcsin _, Real.arcsin_le_pi_div_two _⟩
 
 /-- **Beta is the elevation of the body above the orbit plane**: its sine is the projection of the
 unit direction of the body on the unit normal `w/|w|`, `w = p × v`; equivalently beta is 90° minus the
@@ -87,8 +108,8 @@ theorem beta_is_elevation (p v ref : V3) (hw : V3.dot (V3.cross p v) (V3.cross p
   have hd := abs_le.mp (beta_arg_in_domain p v ref hw hr)
   rw [dot_sdiv]
   constructor
-  · simp only [betaAngle, asin]; rw [clip_of_mem _ hd.1 hd.2, Real.sin_arcsin hd.1 hd.2]
-  · simp only [betaAngle, asin]; rw [clip_of_mem _ hd.1 hd.2, Real.arcsin_eq_pi_div_two_sub_arccos]
+  · rw [betaAngle_eq, clip_of_mem _ hd.1 hd.2, Real.sin_arcsin hd.1 hd.2]
+  · rw [betaAngle_eq, clip_of_mem _ hd.1 hd.2, Real.arcsin_eq_pi_div_two_sub_arccos]
 
 example : V3.dot (V3.cross ⟨1, 0, 0⟩ ⟨0, 1, 0⟩) (V3.cross ⟨1, 0, 0⟩ ⟨0, 1, 0⟩) ≠ 0 := by
   simp [V3.dot, V3.cross]
